@@ -23,8 +23,17 @@ def truncated(kind, blocked, bounds, tsplit=None):
         m = M().mciipm
         ns = [sym_int('len%d' % i, 1, b) for i, b in enumerate(bounds)]
         f = RopeFile()
+        t = sym_int('t', 0, 20000)
+        recs = vals = None
+
+        def rp():
+            a = {'kind': kind, 'blocked': blocked, 'lengths': [ev(n) for n in ns], 't': ev(t)}
+            a['items'] = [concretize(r, ev) for r in recs] if kind == 'vbs' else [concretize(v, ev) for v in vals]
+            return {'kind': 'truncate', 'args': a}
+        core.set_fallback(rp, 'C09/concretised')
         if kind == 'vbs':
             recs = [Source('rec%d' % i, 'b', n).rope() for i, n in enumerate(ns)]
+            core.set_fallback(rp, 'C09/altered')
             w = m.VbsWriter(f, blocked=blocked)
             for r in recs:
                 w.write(r)
@@ -36,6 +45,7 @@ def truncated(kind, blocked, bounds, tsplit=None):
                 ends.append(pos)
         else:
             vals = [Source('val%d' % i, 't', n).rope() for i, n in enumerate(ns)]
+            core.set_fallback(rp, 'C09/altered')
             w = m.IpmWriter(f, blocked=blocked)
             for v in vals:
                 w.write({'MTI': '1144', 'DE2': v})
@@ -47,17 +57,12 @@ def truncated(kind, blocked, bounds, tsplit=None):
                 ends.append(pos)
         data = f.getvalue()
         size = rlen(data)
-        t = sym_int('t', 0)
         assume(t <= size)
         if tsplit is not None:
             lo, hi = tsplit
             assume(t >= lo)
             if hi is not None:
                 assume(t < hi)
-        def rp():
-            a = {'kind': kind, 'blocked': blocked, 'lengths': [ev(n) for n in ns], 't': ev(t)}
-            a['items'] = [concretize(r, ev) for r in recs] if kind == 'vbs' else [concretize(v, ev) for v in vals]
-            return {'kind': 'truncate', 'args': a}
         cut = sl(data, 0, t)
         # surviving payload bytes
         if blocked:
